@@ -119,7 +119,8 @@ def plan(seed, tier="quick", index=0):
         via = "cli" if rng.random() < (0.02 if stratum in ("long", "very-long") else 0.15) else "api"
         if kind == "boundary":
             pre = rng.choice([[], [], ["ZERO"], ["ZERO", "ZERO"], ["ZERO"] * rng.randrange(3, 8)])
-            last = rng.choice(["ZERO", "ONE", "ONE", "BOUND-1", "BOUND-1", "BOUND-2", "MID", {"frac": rng.random()}, {"v": hex(rng.getrandbits(rng.choice([16, 100, 127, 240])))}])
+            # (absolute values around n matter when the implementation draws from a wider range, e.g. 2^256)
+            last = rng.choice(["ZERO", "ONE", "ONE", "BOUND-1", "BOUND-1", "BOUND-2", "MID", {"frac": rng.random()}, {"v": hex(rng.getrandbits(rng.choice([16, 100, 127, 240])))}, {"v": hex(N)}, {"v": hex(N - 1)}, {"v": hex(N + 1)}, {"v": hex(2 * N % 2**256)}])
             ops.append({"via": via, "tape": pre + [last]})
         elif kind == "pairs":
             a = rng.randrange(1, N)
